@@ -35,6 +35,11 @@ CLAIMED = {
          "never flows into model fields; tuning order, rounding conversions, OR construction, class-level state. Decides which code an option can "
          "influence, not the magnitude of the difference between two runs", "4 C13",
          "information-flow (taint) analysis + control-dependence regions + effect summaries over the call graph, compared with an allow-list per option (R-EFFECT); ordering/shape lints (R-ORDER, R-TABLE, R-FLOW, R-GLOBAL)"),
+ "C18": ("effect/alias analysis decided for all call histories: no API-reachable mutation of an object aliasing a caller's argument, serialisers "
+         "own what they mutate, memo guards compare the arguments the stage depends on and accumulating stages run once, buffered-writer "
+         "ordering (truncate once, append, reset after flush on every path, final flush), no class-level / rebound module state in the result. "
+         "Byte equality of concrete outputs is not decided", "4 C18",
+         "ownership/alias analysis over the value-flow graph (copy edges, one level of object sensitivity), memo-key and typestate lints, ordering lints (R-PURE, R-MEMO, R-ORDER, R-GLOBAL)"),
 }
 NA_REASON = {
  "C08": "relates the outputs of different parsers (rdflib readers, two hand-written scanners, TSV splitter, decompressors) on "
